@@ -16,6 +16,15 @@ package ignorefiles
 //@   replay ignoreLine: line=$line
 //@   at-call append C03.readrules.rule: lineHasRule($line) && a1.val == lineRuleVal($line) && a1.negated == lineNegated($line) && a1.regex == nil
 //@   invariant loop1 C19.ruleindex: currentRuleIndex == len(rules) - 1
+// completeness: the input is read to its end, every line that carries a rule adds exactly one rule (so no line of the
+// user's file is skipped and nothing after a blank, comment or lone "!" line is lost), and a read error is reported
+//@   ghost $ruleLines Int = 0
+//@   ghost $scanDone Bool = false
+//@   ghost $scanErrAsked Bool = false
+//@   ghost $scanErrSeen Bool = false
+//@   invariant loop1 C03.readrules.one-rule-per-line: len(rules) == len(defaultExclusions) + $ruleLines
+//@   ensures C03.readrules.whole-input: err == nil ==> $scanDone && len(rules) == len(defaultExclusions) + $ruleLines
+//@   ensures C03.readrules.read-error-reported: err == nil ==> $scanErrAsked && !$scanErrSeen
 //@   invariant loop2 C19.ruleindex2: i <= currentRuleIndex && currentRuleIndex == len(rules) - 1
 
 //@ func (*rule).compile -> (err)
